@@ -1,8 +1,11 @@
+use super::types::ArgInfo;
 use crate::utils::*;
+use proc_macro2::TokenStream;
+use quote::quote;
 use std::collections::HashSet;
 use syn::{
-    punctuated::Punctuated, Attribute, Error, Expr, GenericArgument, Lit, Meta, PathArguments,
-    ReturnType, Type,
+    punctuated::Punctuated, Attribute, Error, Expr, FnArg, GenericArgument, Lit, Meta, Pat,
+    PathArguments, ReturnType, Type,
 };
 
 /// Convert snake_case to PascalCase.
@@ -177,6 +180,102 @@ pub(super) fn extract_param_rename_attr(
         Ok(rename_value)
     });
     Ok(rename_result.unwrap_or(None))
+}
+
+/// Parse the arguments of a proxy method (skipping `&mut self`).
+///
+/// The `zlink` attributes of the arguments are left in place so that all the generators see them.
+/// Use [`strip_param_attrs`] to remove them from a signature before emitting it.
+pub(super) fn parse_method_arguments<'a>(
+    method: &'a mut syn::TraitItemFn,
+    has_explicit_lifetimes: bool,
+) -> Result<Vec<ArgInfo<'a>>, Error> {
+    method
+        .sig
+        .inputs
+        .iter_mut()
+        .skip(1)
+        .filter_map(|arg| {
+            let FnArg::Typed(pat_type) = arg else {
+                return None;
+            };
+            let Pat::Ident(pat_ident) = &*pat_type.pat else {
+                return None;
+            };
+
+            let name = &pat_ident.ident;
+            let ty = &pat_type.ty;
+
+            // Extract parameter rename attribute
+            let serialized_name = extract_param_rename_attr(&mut pat_type.attrs.clone())
+                .ok()
+                .flatten();
+
+            // Check if the type is optional
+            let is_optional = is_option_type(ty);
+
+            // Only convert to single lifetime if there are no explicit lifetimes
+            let ty_for_params = if has_explicit_lifetimes {
+                (**ty).clone()
+            } else {
+                convert_to_single_lifetime(ty)
+            };
+
+            // Check if this argument has lifetimes
+            let has_lifetime = type_contains_lifetime(&ty_for_params);
+
+            Some(Ok(ArgInfo {
+                name,
+                ty_for_params,
+                is_optional,
+                has_lifetime,
+                serialized_name,
+            }))
+        })
+        .collect()
+}
+
+/// Remove the `zlink` attributes from the arguments of a method signature.
+pub(super) fn strip_param_attrs(sig: &mut syn::Signature) {
+    for arg in sig.inputs.iter_mut() {
+        if let FnArg::Typed(pat_type) = arg {
+            let _ = extract_param_rename_attr(&mut pat_type.attrs);
+        }
+    }
+}
+
+/// Generate the fields of the parameters struct, with their serde attributes.
+pub(super) fn generate_params_struct_fields(arg_infos: &[ArgInfo<'_>]) -> Vec<TokenStream> {
+    arg_infos
+        .iter()
+        .map(|info| {
+            let name = info.name;
+            let ty = &info.ty_for_params;
+
+            let serde_attrs = if let Some(ref renamed) = info.serialized_name {
+                if info.is_optional {
+                    quote! {
+                        #[serde(rename = #renamed, skip_serializing_if = "Option::is_none")]
+                    }
+                } else {
+                    quote! {
+                        #[serde(rename = #renamed)]
+                    }
+                }
+            } else if info.is_optional {
+                quote! {
+                    #[serde(skip_serializing_if = "Option::is_none")]
+                }
+            } else {
+                quote! {}
+            };
+
+            quote! {
+                #serde_attrs
+                #name: #ty
+            }
+        })
+        .collect()
 }
 
 /// Build a combined where clause from existing constraints, new constraint, and generic bounds.
